@@ -4,7 +4,7 @@
 // destination – is taken before the call and compared after it, on the real kernel: work
 // directories live under a fresh temp dir on the root file system and under /dev/shm (tmpfs,
 // another device, so rename really fails with EXDEV). Failing steps *inside* the copy are
-// produced by the kernel itself (RLIMIT_FSIZE, /dev/full) and by strace syscall tampering
+// produced by the kernel itself (RLIMIT_FSIZE in a probe process) and by strace syscall tampering
 // around a probe sub-mode of this binary (probe.go). See DESIGN.md §3 C18.
 package main
 
@@ -85,14 +85,58 @@ type Case struct {
 	DstFS string `json:"dst_fs"`
 	Src   string `json:"src"` // "present" | "missing" | "symlink" (srcPath is a symlink to the regular file)
 	Dst   string `json:"dst"` // see dstKinds / aliasKinds
+	// Rel, when set, makes the two file names related (both files in one directory when the
+	// file systems are equal): "<side>:<form>:<suffix>", side "src" = the source is named after
+	// the destination, "dst" = the destination is named after the source; form "plain" =
+	// name+suffix, "hidden" = "."+name+suffix. E.g. "src:plain:.tmp" is CopyFile("data.bin.tmp", "data.bin").
+	Rel   string `json:"rel,omitempty"`
 	Fault *Fault `json:"fault,omitempty"`
 	Seed  int64  `json:"seed"` // content seed
+}
+
+// suffixes a careless implementation might use for a temporary / backup sibling
+var relSuffixes = []string{".tmp", "~", ".bak", ".new", ".part", ".swp", ".old", ".0", ".lock", ".temp", ".orig", ".1", "-tmp", ".copy"}
+
+func relKinds() []string {
+	var out []string
+	for _, side := range []string{"src", "dst"} {
+		for _, form := range []string{"plain", "hidden"} {
+			for _, suf := range relSuffixes {
+				out = append(out, side+":"+form+":"+suf)
+			}
+		}
+	}
+	return out
+}
+
+// relNames returns the base names of source and destination for a name relation.
+func relNames(rel string) (src, dst string, ok bool) {
+	p := strings.SplitN(rel, ":", 3)
+	if len(p) != 3 || p[2] == "" {
+		return "", "", false
+	}
+	const base = "data.bin"
+	derived := base + p[2]
+	switch p[1] {
+	case "plain":
+	case "hidden":
+		derived = "." + derived
+	default:
+		return "", "", false
+	}
+	switch p[0] {
+	case "src":
+		return derived, base, true
+	case "dst":
+		return base, derived, true
+	}
+	return "", "", false
 }
 
 var sizesQuick = []int{0, 1, 4095, 4096, 4097, 1 << 20}
 var sizesThorough = []int{0, 1, 4095, 4096, 4097, 32768, 32769, 1 << 20, 5 << 20} // 32 KiB: buffer of Go's read/write fallback
 
-var dstKinds = []string{"missing", "shorter", "longer", "dir", "parent-missing", "parent-file", "symlink-other", "dangling-symlink", "devfull"}
+var dstKinds = []string{"missing", "shorter", "longer", "dir", "parent-missing", "parent-file", "symlink-other", "dangling-symlink"}
 
 // destinations that are the source itself under another name
 var aliasKinds = []string{"alias-same", "alias-dot", "alias-dotdot", "alias-symlink", "alias-relsymlink", "alias-hardlink", "alias-chain", "alias-dirsymlink"}
@@ -101,20 +145,35 @@ func isAlias(d string) bool { return strings.HasPrefix(d, "alias-") }
 
 func applicable(cs Case) bool {
 	same := cs.SrcFS == cs.DstFS
+	if cs.Rel != "" {
+		if _, _, ok := relNames(cs.Rel); !ok {
+			return false
+		}
+		return cs.Src == "present" && (cs.Dst == "missing" || cs.Dst == "shorter" || cs.Dst == "longer")
+	}
 	switch cs.Dst {
 	case "alias-same", "alias-dot", "alias-dotdot", "alias-hardlink", "alias-relsymlink":
 		return same && cs.Src == "present"
 	case "alias-symlink", "alias-chain", "alias-dirsymlink":
 		return cs.Src == "present"
 	case "devfull":
-		// MoveFile onto /dev/full is never attempted: rename could replace the device node.
-		return cs.Op == "copy" && cs.Size > 0 && cs.Src != "missing" && same
+		// /dev/full (or any path outside the work dirs) is never handed to the code under test:
+		// the monitor runs as root, and an implementation that replaces its destination by
+		// rename - as a seeded variant of CopyFile did - replaces the device node.
+		return false
 	}
 	return true
 }
 
 func (cs Case) id() string {
-	return fmt.Sprintf("%s size=%d %s(%s)->%s(%s) %s", cs.Op, cs.Size, cs.Src, cs.SrcFS, cs.Dst, cs.DstFS, cs.Fault.String())
+	return fmt.Sprintf("%s size=%d %s(%s)->%s(%s)%s %s", cs.Op, cs.Size, cs.Src, cs.SrcFS, cs.Dst, cs.DstFS, cs.relTag(), cs.Fault.String())
+}
+
+func (cs Case) relTag() string {
+	if cs.Rel == "" {
+		return ""
+	}
+	return "[" + cs.Rel + "]"
 }
 
 func (cs Case) fsRel() string {
@@ -125,7 +184,7 @@ func (cs Case) fsRel() string {
 }
 
 func (cs Case) key(failure string) string {
-	return fmt.Sprintf("%s:%s->%s:%s:%s:%s", cs.Op, cs.Src, cs.Dst, cs.fsRel(), cs.Fault.keyString(), failure)
+	return fmt.Sprintf("%s:%s->%s%s:%s:%s:%s", cs.Op, cs.Src, cs.Dst, cs.relTag(), cs.fsRel(), cs.Fault.keyString(), failure)
 }
 
 // ---------------------------------------------------------------------------------------
@@ -341,6 +400,21 @@ func takeSnap(path string, limit int64) snap {
 type layout struct {
 	src, dst string
 	dirs     []string
+	allowNew []string // paths a successful call may legitimately create besides dst
+}
+
+// listing returns every path below the case directories.
+func (l *layout) listing() map[string]bool {
+	out := map[string]bool{}
+	for _, d := range l.dirs {
+		filepath.Walk(d, func(p string, _ os.FileInfo, err error) error {
+			if err == nil {
+				out[p] = true
+			}
+			return nil
+		})
+	}
+	return out
 }
 
 func (l *layout) remove() {
@@ -379,6 +453,17 @@ func (e *env) build(cs Case) (*layout, error) {
 	must(os.MkdirAll(ddir, 0o755))
 	data := content(cs.Seed, cs.Size)
 	l.src = filepath.Join(sdir, "src.bin")
+	dstName := "dst.bin"
+	if cs.Rel != "" {
+		sn, dn, ok := relNames(cs.Rel)
+		if !ok {
+			return l, fmt.Errorf("bad name relation %q", cs.Rel)
+		}
+		l.src, dstName = filepath.Join(sdir, sn), dn
+		if cs.SrcFS == cs.DstFS {
+			ddir = sdir // related names in one directory
+		}
+	}
 	real := l.src
 	switch cs.Src {
 	case "present":
@@ -391,7 +476,7 @@ func (e *env) build(cs Case) (*layout, error) {
 	default:
 		return l, fmt.Errorf("unknown source kind %q", cs.Src)
 	}
-	l.dst = filepath.Join(ddir, "dst.bin")
+	l.dst = filepath.Join(ddir, dstName)
 	other := func(n int) []byte { return content(cs.Seed^0x5eed5eed, n) }
 	switch cs.Dst {
 	case "missing":
@@ -412,8 +497,7 @@ func (e *env) build(cs Case) (*layout, error) {
 		must(os.Symlink(o, l.dst))
 	case "dangling-symlink":
 		must(os.Symlink(filepath.Join(ddir, "nothing.bin"), l.dst))
-	case "devfull":
-		l.dst = "/dev/full"
+		l.allowNew = append(l.allowNew, filepath.Join(ddir, "nothing.bin"))
 	case "alias-same":
 		l.dst = l.src
 	case "alias-dot":
@@ -452,6 +536,7 @@ type outcome struct {
 	errText    string
 	dstTouched bool // destination differs from its state before the call although an error was returned
 	srcGone    bool
+	extraFiles []string // after a nil return: paths that exist now, did not before, and are not the destination (metric only)
 	hits       []string
 	renameHits int
 	harness    string // the check (not glb) failed on this case
@@ -489,6 +574,7 @@ func runCase(cs Case, e *env, oc *outcome) (key, expected, observed string) {
 		return
 	}
 
+	before := l.listing()
 	var res ProbeResult
 	if cs.Fault == nil {
 		res = call(cs.Op, l.src, l.dst)
@@ -506,6 +592,17 @@ func runCase(cs Case, e *env, oc *outcome) (key, expected, observed string) {
 	srcPost := takeSnap(l.src, limit)
 	dstPost := takeSnap(l.dst, limit)
 	oc.srcGone = srcPost.Kind == "missing"
+	if res.Nil {
+		allowed := map[string]bool{l.dst: true, filepath.Clean(l.dst): true}
+		for _, a := range l.allowNew {
+			allowed[a] = true
+		}
+		for p := range l.listing() {
+			if !before[p] && !allowed[p] {
+				oc.extraFiles = append(oc.extraFiles, filepath.Base(p))
+			}
+		}
+	}
 	state := fmt.Sprintf("before: source %s, destination %s; after: source %s, destination %s", srcPre, dstPre, srcPost, dstPost)
 
 	if res.Panic != "" {
@@ -564,7 +661,7 @@ type mon struct{}
 func (mon) Name() string { return "filecopy" }
 
 func (mon) Level(string) (string, string) {
-	return "fault_enumeration", "complete product of operation {CopyFile, MoveFile} × source size × source {present, missing, symlink to file} × destination {missing, shorter, longer, directory, parent missing, parent is a file, symlink to another file, dangling symlink, /dev/full, and the source itself as same path / ./ / dir/../ / symlink / relative symlink / hard link / symlink chain / through a directory symlink} × placement {root FS, tmpfs, across both (real EXDEV)}, plus an enumerated list of failing steps inside the call (RLIMIT_FSIZE in a probe process; strace tampering: rename→EXDEV or another errno, copy_file_range/read/write/openat/fstat/unlinkat errors at the k-th call, k∈{1,2}); judged by SHA-256+length snapshots before/after; distinct_nontrivial = distinct (op, size, source, destination, placement, fault) tuples with a source present that were really executed"
+	return "fault_enumeration", "complete product of operation {CopyFile, MoveFile} × source size × source {present, missing, symlink to file} × destination {missing, shorter, longer, directory, parent missing, parent is a file, symlink to another file, dangling symlink, and the source itself as same path / ./ / dir/../ / symlink / relative symlink / hard link / symlink chain / through a directory symlink} × placement {root FS, tmpfs, across both (real EXDEV)}, plus a name-related family (source named destination+suffix or dot+destination+suffix and the reverse, in one directory, for 14 temp/backup suffixes; also with MoveFile forced into its fallback), plus an enumerated list of failing steps inside the call (RLIMIT_FSIZE in a probe process; strace tampering: rename→EXDEV or another errno, copy_file_range/read/write/openat/fstat/unlinkat errors at the k-th call, k∈{1,2}); judged by SHA-256+length snapshots before/after; distinct_nontrivial = distinct (op, size, source, destination, placement, fault) tuples with a source present that were really executed"
 }
 
 func (mon) Assumptions(string) []string {
@@ -572,12 +669,13 @@ func (mon) Assumptions(string) []string {
 		"on an error return only the source is protected: a destination that was created, truncated or partly written is not a violation",
 		"MoveFile returning nil while the source path still exists (rename onto itself / onto a hard link is a kernel no-op) is not a violation as long as the destination holds the content",
 		"strace tampering stands for a failing kernel step; a row whose fault was never reached is listed under observed_sets.faults_not_reached and still judged by the same oracle",
+		"files other than the destination that exist after a nil return (left-over temporaries) are not covered by the statement: counted under nil_returns_leaving_extra_files(metric), not judged",
 		"faults of close(2) and of the destination stat that guards against aliasing are outside the stated quantifier and not injected",
 	}
 }
 
 type shardArgs struct {
-	Kind  string `json:"kind"` // "plain" | "rlimit" | "exdev" | "inner"
+	Kind  string `json:"kind"` // "plain" | "names" | "rlimit" | "exdev" | "inner"
 	SrcFS string `json:"src_fs,omitempty"`
 	DstFS string `json:"dst_fs,omitempty"`
 	Op    string `json:"op,omitempty"`
@@ -594,6 +692,11 @@ func (mon) Plan(prop, tier string, seed int64) []drv.Shard {
 	for _, pl := range [][2]string{{"root", "root"}, {"shm", "shm"}, {"root", "shm"}, {"shm", "root"}} {
 		for _, op := range []string{"copy", "move"} {
 			add(fmt.Sprintf("plain-%s-%s-%s", op, pl[0], pl[1]), shardArgs{Kind: "plain", SrcFS: pl[0], DstFS: pl[1], Op: op}, 300)
+		}
+	}
+	for _, pl := range [][2]string{{"root", "root"}, {"shm", "shm"}, {"root", "shm"}, {"shm", "root"}} {
+		for _, op := range []string{"copy", "move"} {
+			add(fmt.Sprintf("names-%s-%s-%s", op, pl[0], pl[1]), shardArgs{Kind: "names", SrcFS: pl[0], DstFS: pl[1], Op: op}, 300)
 		}
 	}
 	add("rlimit", shardArgs{Kind: "rlimit"}, 300)
@@ -627,6 +730,20 @@ func plainCases(tier string, a shardArgs) []Case {
 				if applicable(cs) {
 					out = append(out, cs)
 				}
+			}
+		}
+	}
+	return out
+}
+
+// nameCases: source and destination names related by a suffix an implementation might use for
+// a temporary or backup sibling (source = destination+".tmp", destination = source+"~", ...).
+func nameCases(tier string, a shardArgs) []Case {
+	var out []Case
+	for _, size := range sizesOf(tier) {
+		for _, dst := range []string{"missing", "shorter", "longer"} {
+			for _, rel := range relKinds() {
+				out = append(out, Case{Op: a.Op, Size: size, SrcFS: a.SrcFS, DstFS: a.DstFS, Src: "present", Dst: dst, Rel: rel})
 			}
 		}
 	}
@@ -671,6 +788,14 @@ func exdevCases(tier string) []Case {
 					cs := Case{Op: "move", Size: size, SrcFS: fs, DstFS: fs, Src: src, Dst: dst, Fault: &Fault{RenameErr: "EXDEV"}}
 					if applicable(cs) {
 						out = append(out, cs)
+					}
+				}
+			}
+			// related names in one directory, MoveFile forced into its copy fallback
+			if tier == "thorough" || (fs == "root" && (size == 1 || size == 4097)) {
+				for _, dst := range []string{"missing", "longer"} {
+					for _, rel := range relKinds() {
+						out = append(out, Case{Op: "move", Size: size, SrcFS: fs, DstFS: fs, Src: "present", Dst: dst, Rel: rel, Fault: &Fault{RenameErr: "EXDEV"}})
 					}
 				}
 			}
@@ -759,6 +884,8 @@ func casesFor(tier string, a shardArgs) []Case {
 	switch a.Kind {
 	case "plain":
 		return plainCases(tier, a)
+	case "names":
+		return nameCases(tier, a)
 	case "rlimit":
 		return rlimitCases(tier)
 	case "exdev":
@@ -828,7 +955,7 @@ func (mon) record(c *drv.Ctx, cs Case, oc *outcome) {
 	}
 	c.Eval(1)
 	if cs.Src != "missing" {
-		c.DistinctStr(fmt.Sprintf("%s|%d|%s|%s|%s|%s|%s", cs.Op, cs.Size, cs.Src, cs.Dst, cs.SrcFS, cs.DstFS, cs.Fault.String()))
+		c.DistinctStr(fmt.Sprintf("%s|%d|%s|%s|%s|%s|%s|%s", cs.Op, cs.Size, cs.Src, cs.Dst, cs.SrcFS, cs.DstFS, cs.Rel, cs.Fault.String()))
 	}
 	cls := "nil"
 	if oc.nilRet {
@@ -839,12 +966,22 @@ func (mon) record(c *drv.Ctx, cs Case, oc *outcome) {
 		if cs.Op == "move" && !oc.srcGone {
 			c.Add("moves_nil_with_source_still_present", 1)
 		}
+		if len(oc.extraFiles) > 0 {
+			// not part of the statement (it speaks about content only): reported, not judged
+			c.Add("nil_returns_leaving_extra_files(metric)", 1)
+			for _, x := range oc.extraFiles {
+				c.SetAdd("extra_files_after_nil", cs.Op+" "+cs.Dst+cs.relTag()+": "+x)
+			}
+		}
 	} else {
 		c.Add("error_returns", 1)
 		cls = errClass(oc.errText)
 		if oc.dstTouched {
 			c.Add("error_returns_with_destination_modified(silent)", 1)
 		}
+	}
+	if cs.Rel != "" {
+		c.Add("name_related_calls", 1)
 	}
 	if isAlias(cs.Dst) {
 		if oc.nilRet {
@@ -853,7 +990,12 @@ func (mon) record(c *drv.Ctx, cs Case, oc *outcome) {
 			c.Add("alias_calls_refused", 1)
 		}
 	}
-	c.SetAdd("outcomes", fmt.Sprintf("%s %s->%s %s %s => %s", cs.Op, cs.Src, cs.Dst, cs.fsRel(), cs.Fault.keyString(), cls))
+	if cs.Rel == "" {
+		c.SetAdd("outcomes", fmt.Sprintf("%s %s->%s %s %s => %s", cs.Op, cs.Src, cs.Dst, cs.fsRel(), cs.Fault.keyString(), cls))
+	} else {
+		side := cs.Rel[:strings.IndexByte(cs.Rel, ':')]
+		c.SetAdd("outcomes", fmt.Sprintf("%s %s->%s[%s named after the other, %d suffixes x plain/hidden] %s %s => %s", cs.Op, cs.Src, cs.Dst, side, len(relSuffixes), cs.fsRel(), cs.Fault.keyString(), cls))
+	}
 	if cs.Fault != nil {
 		c.Add("probe_calls", 1)
 		if cs.Fault.Rlimit != nil {
